@@ -343,7 +343,7 @@ def termination(ctx):
     from . import c06, c07, c15, c19, c20
     old = getattr(ctx, "replayer_override", None)
     ctx.replayer_override = "c18_run"
-    ctx.parallel([lambda c: c20.trim(c), lambda c: c06.systematic(c, "in-tolerance"), lambda c: c06.systematic(c, "renormalised"),
+    ctx.parallel([lambda c: c20.trim(c), lambda c: c06.systematic(c, "sum-exactly-one"), lambda c: c06.systematic(c, "renormalised"),
                   lambda c: c19.dof_structure(c), lambda c: c07.mcmc_run(c, "RWMRunner", False), lambda c: c07.mcmc_run(c, "TPCNRunner", True),
                   lambda c: adaptive_steps_cap(c), lambda c: c15.hier_fit(c, True, True), lambda c: c15.hier_fit(c, False, False)])
     ctx.replayer_override = old
